@@ -1,8 +1,9 @@
 package types
 
 import (
-	"math/big"
-	"strconv"
+	"fmt"
+
+	sdk "github.com/cosmos/cosmos-sdk/types"
 )
 
 const (
@@ -12,8 +13,9 @@ const (
 	DefaultDenomination = NundDenom // lowest denomination used on chain
 	BaseDenomination    = FundDenom // actual Coin - i.e. 1 FUND
 
-	UndPow  = 1e9  // multiplier for converting from und to (nano) nund
-	NundPow = 1e-9 // multiplier for converting from (nano) nund to und
+	UndPow    = 1e9               // multiplier for converting from und to (nano) nund
+	UndPowInt = int64(1000000000) // the same multiplier for exact integer arithmetic
+	NundPow   = 1e-9              // multiplier for converting from (nano) nund to und
 )
 
 func ConvertUndDenomination(amount string, from string, to string) (string, error) {
@@ -22,25 +24,27 @@ func ConvertUndDenomination(amount string, from string, to string) (string, erro
 		return amount + from, nil
 	}
 
+	// the conversion is done in exact decimal arithmetic: a float64 cannot hold most
+	// amounts with nine decimals (1.005fund came out as 1004999999nund)
 	switch from {
 	case FundDenom: // from und to nund
-		fromAmt, err := strconv.ParseFloat(amount, 64)
+		fromAmt, err := sdk.NewDecFromStr(amount)
 		if err != nil {
 			return "", err
 		}
-		fromAmtBf := new(big.Float).SetFloat64(fromAmt)
-		res := fromAmtBf.Mul(fromAmtBf, big.NewFloat(UndPow))
-		result := new(big.Int)
-		res.Int(result)
-		return result.String() + to, nil
+		return fromAmt.MulInt64(UndPowInt).TruncateInt().String() + to, nil
 	case NundDenom: // from nund to fund
-		fromAmt, err := strconv.ParseFloat(amount, 64)
+		fromAmt, err := sdk.NewDecFromStr(amount)
 		if err != nil {
 			return "", err
 		}
-		fromAmtBf := new(big.Float).SetFloat64(fromAmt)
-		res := fromAmtBf.Mul(fromAmtBf, big.NewFloat(NundPow))
-		return res.Text('f', 9) + to, nil
+		nund := fromAmt.TruncateInt()
+		sign := ""
+		if nund.IsNegative() {
+			sign = "-"
+			nund = nund.Neg()
+		}
+		return fmt.Sprintf("%s%s.%09d", sign, nund.QuoRaw(UndPowInt).String(), nund.ModRaw(UndPowInt).Int64()) + to, nil
 	}
 
 	return "", nil
